@@ -154,7 +154,11 @@ class C09(BaseCheck):
                 out.append((text[:a + 1] + r.choice('qx0 ') + text[b:], 'bad-escape', 'escape letter replaced by an illegal one at %d' % a))
             else:
                 out.append((text[:a + 3] + 'g' + text[a + 4:], 'bad-escape', 'non-hex digit in \\u escape at %d' % a))
-        names = by.get('name', [])
+        # an upper-cased name is only guaranteed-broken where nothing else may start with a capital:
+        # a column name (after a newline or a comma) or the first name inside a dict.  A name that follows
+        # a value and a blank can legally be read as the time-zone label of a preceding date-time
+        # ("2020-01-01T00:00:00Z N_1"), so those are delivered as ordinary flips, not as must-reject.
+        names = [(a, b) for (a, b) in by.get('name', []) if a > 0 and text[a - 1] in '\n,{']
         if names:
             a, b = r.choice(names)
             out.append((text[:a] + text[a].upper() + text[a + 1:], 'upcase-name', 'first letter of a tag/column name upper-cased at %d' % a))
